@@ -68,6 +68,14 @@ CHECKS = {
     technique='two adapters, one TLA+ specification: the threaded and the asyncio class are each explored exhaustively and validated edge by edge by TLC against the SAME module (SioServer.tla, SioClient.tla) with equal state counts; plus a direct comparison of the two implementation graphs',
     text='For every configuration the real Server and AsyncServer (Client and AsyncClient) are driven through every alphabet action (client frames valid and malformed, API calls, transport losses) from every reachable abstract state, background handlers joined; both graphs must be the specification\'s graph (G2+G3), and the two recorded graphs (states, packets per peer, handler and callback invocations, results/exceptions, after renaming session ids by order of appearance) must be identical to each other. Managers are covered through the servers, namespaces through C13/C17 cases on all four classes; SimpleClient/AsyncSimpleClient and the pub/sub managers are covered where their own checks (C19, C07) run both classes.',
     ref='4/C14', note=SRV_NOTE + ' AsyncSimpleClient and AsyncPubSubManager pairs are not part of this check yet.'),
+ 'C07': dict(
+    technique='TLA+ PubSub.tla (N SioServer cores + ordered channel with per-host cursors, reference single server as a ghost) model-checked by TLC; exhaustive transition-graph validation of clusters of real Server+PubSubManager and AsyncServer+AsyncPubSubManager joined by an in-memory channel',
+    text='G1: TLC checks on every interleaving of operations with per-host consumption of the FIFO channel: C07_Deliveries (per in-flight emit: at most once per client, only to clients addressed at some point while in flight, exactly the addressed set when no membership change raced it, never on the issuing host by consumption), C07_SingleServerEquivalence (immediate delivery: at every quiet point memberships equal those of ONE SioServer holding all clients, and the packets/handler runs of each operation equal the single server\'s), C07_OwnerHoldsClient, C07_CallbackOnOrigin (application callback only on the issuing host, with the acknowledging client\'s arguments; the relay partial and callback messages modelled as in the code). G2: two real servers per cluster with the library\'s own listener loop running in a thread/task, stepped one message at a time; every action (client frames on either host, emit/enter/leave/close/disconnect via either host or the write-only manager, client ACKs, one listener turn) from every reachable cluster state is re-executed by TLC: per-host manager state, channel contents (unpickled published messages), cursors, packets per client, handler and callback invocations. G3: state counts equal.',
+    ref='4/C07', note=SRV_NOTE + ' Channel = ordered list of pickled messages, as the bundled backends publish them; Kombu/Kafka/ZeroMQ/aio-pika transports are not run (client libraries absent). Remote membership operations are linearized where the owning host applies them (DESIGN.md 4/C07).'),
+ 'C15': dict(
+    technique='TLA+ PubSub.tla listener turn (Consume) with junk classes, forged/foreign callback messages, backend iterator failures and raising application code; TLC invariants + exhaustive graph validation with the library\'s real _thread() loop',
+    text='C15_ListenerAlive and C15_EchoAndJunkChangeNothing on the spec; on the real PubSubManager and AsyncPubSubManager every element of a 29-variant junk catalogue (undecodable bytes, pickles/JSON of non-dicts, dicts without method, unknown methods, missing/ill-typed/surplus fields, values on which the loop\'s own test raises) plus a failing backend iterator is sent down the channel in every quiet state of a small cluster, every listener takes its turn on it, and a sentinel broadcast sent right behind it must be applied by every listener with its exact effect (JunkProbe action); junk and faults are also interleaved with in-flight messages, own-host echoes, callback messages addressed to other hosts / unknown ids, application callbacks that raise and a disconnect handler that raises inside the listener. Every step is re-executed by TLC against PubSub.tla (state of every host, cursors, liveness of the loop, outputs).',
+    ref='4/C15', note=SRV_NOTE + ' The junk classification is the reference reading in harness/pubsub.py (validated against the unchanged tree: a wrong class is a rejected edge). Redis retry loops: see evidence (fake redis module) when built.'),
  'C16': dict(
     technique='TLA+ SioServer.tla (sessions config) + exhaustive graph validation with the real engine.io session store',
     text='C16_SessionIsolation: get_session/session() return the declared contents for that client+namespace, never a foreign value; known finding D6 (session survives a namespace-level disconnect) is modelled exactly, the design without it is model-checked.',
